@@ -821,4 +821,5 @@ func runC19(h *H) {
 				strconv.FormatUint(h.U64(), 10), "split")
 		}
 	}
+	h.tmplValueCases()
 }
